@@ -125,28 +125,49 @@ func boundSites(m *ssa.Function) []*ssa.MakeClosure {
 // receiverField: v loads a field of the receiver of a method that is used (exactly once) as a
 // method value on a local struct whose field was set exactly once: the value stored there.
 func receiverField(v ssa.Value) ssa.Value {
-	ld, ok := v.(*ssa.UnOp)
-	if !ok || ld.Op != token.MUL {
+	var base ssa.Value
+	var fld *types.Var
+	switch x := v.(type) {
+	case *ssa.UnOp:
+		if x.Op != token.MUL {
+			return nil
+		}
+		fa, ok := x.X.(*ssa.FieldAddr)
+		if !ok {
+			return nil
+		}
+		base, fld = fa.X, fieldOfAddr(fa)
+	case *ssa.Field:
+		// value receiver
+		base, fld = x.X, fieldOfAddr(x)
+	default:
 		return nil
 	}
-	fa, ok := ld.X.(*ssa.FieldAddr)
-	if !ok {
-		return nil
+	if al, isAl := base.(*ssa.Alloc); isAl {
+		// a value receiver whose fields are addressed is spilled into a local first
+		if pv := facts.SpilledParam(al); pv != nil {
+			base = pv
+		}
 	}
-	prm, ok := fa.X.(*ssa.Parameter)
-	if !ok || prm.Parent() == nil || len(prm.Parent().Params) == 0 || prm.Parent().Params[0] != prm || prm.Parent().Signature.Recv() == nil {
+	prm, ok := base.(*ssa.Parameter)
+	if !ok || fld == nil || prm.Parent() == nil || len(prm.Parent().Params) == 0 || prm.Parent().Params[0] != prm || prm.Parent().Signature.Recv() == nil {
 		return nil
 	}
 	sites := boundSites(prm.Parent())
 	if len(sites) != 1 {
 		return nil
 	}
-	al, ok := sites[0].Bindings[0].(*ssa.Alloc)
+	bind := sites[0].Bindings[0]
+	if ld, isLd := bind.(*ssa.UnOp); isLd && ld.Op == token.MUL {
+		// a struct value copied into the method value: the local it was loaded from
+		bind = ld.X
+	}
+	al, ok := bind.(*ssa.Alloc)
 	if !ok {
 		return nil
 	}
 	vals, cnt := allocStores(al)
-	name := fieldOfAddr(fa).Name()
+	name := fld.Name()
 	if cnt[name] != 1 {
 		return nil
 	}
